@@ -153,6 +153,8 @@ class IOBase(Communicator):
         self._conn.disconnect()
         self._conn = None
         self.is_connected = False
+        # make sure the reconnect callbacks are called on the next successful connect
+        self._last_error = self._last_error or 'disconnected'
 
     def doPoll(self):
         self.read_is_connected()
